@@ -4,7 +4,9 @@ import k9
 
 CLAIMS = ("R1 QueryResult.schema returned by ExecutionContext::sql is PhysicalOperator::schema() of the very plan whose partitions were executed (the value create_physical_plan returned), and ExecutionContext::physical_plan — used by Flight GetFlightInfo/GetSchema — builds its plan through the same optimized_plan + create_physical_plan pipeline with the same statistics-aware optimizer choice; "
           "R2 Flight's schema answers derive from plan.schema() of physical_plan(sql); "
-          "R3 the boundary cast that turns dictionary columns into plain arrays rebuilds each batch with a schema derived from the cast columns (so batch schemas and the reported schema keep the same column count and names).")
+          "R3 the boundary cast that turns dictionary columns into plain arrays rebuilds each batch with a schema derived from the cast columns (so batch schemas and the reported schema keep the same column count and names); "
+          "R4 whether a result batch is cast is decided from THAT batch: the branch guarding the cast inside the per-batch closure derives from the closure's own batch parameter, not from a value computed outside (e.g. from the first batch only); "
+          "R5 the projection operator retypes an untyped NULL column to its declared type: project_batch builds a typed all-NULL array (new_null_array) from the declared field type, so no batch carries DataType::Null under a schema that promises a concrete type.")
 NOT_DECIDED = "per-operator equality of declared and produced batch schemas (value-level)."
 
 CTX = "execution::context::ExecutionContext"
@@ -62,3 +64,36 @@ def run(F, R):
                 R.check("physical_plan(" in e and "schema(" in e, "C30.R2", f"flight:{F.bodies[g.path].get('root') or g.path}:schema", f"Flight reports schema {e[:80]}", g.loc(c.bb), dict(expr=e[:120]))
     fi = [c for g in F.in_file("src/distributed/flight.rs") for c in g.calls() if c.name == CTX + "::physical_plan"]
     R.floor("C30.R2", "physical_plan calls in flight.rs", len(fi), 2)
+    # ---- R4: the cast decision is per batch
+    R.rule("C30.R4", "K5 provenance of a guard", "the guard of the boundary cast derives from the per-batch closure's parameter")
+    from c15 import controlling_switches
+    n4 = 0
+    for g in F.family(CTX + "::sql"):
+        if F.bodies[g.path]["kind"] != "closure":
+            continue
+        tn = [c for c in g.calls() if c.name.endswith("RecordBatch::try_new")]
+        inner_cast = any(c.name.rsplit("::", 1)[-1] == "cast" and "arrow" in c.name for c in F.fam_calls(g.path))
+        if not (tn and inner_cast) or g.raw["nargs"] < 2:
+            continue
+        n4 += 1
+        ok4 = False
+        detail = []
+        for c in tn:
+            for sb, val in controlling_switches(g, c.bb):
+                si = g.switch_info(sb)
+                subj = si[1][0] if si[0] == "enum" else si[1]
+                if not subj:
+                    continue
+                from_param = derives_from(g, ["c:" + subj], lambda k, x: (k == "place" and place_local(x) == 2 and x) or None)
+                from_capture = derives_from(g, ["c:" + subj], lambda k, x: (k == "place" and x.startswith("1|") and x) or None)
+                detail.append((bool(from_param), bool(from_capture)))
+                if from_param and not from_capture:
+                    ok4 = True
+        R.check(ok4, "C30.R4", "sql:cast-decided-per-batch", "the decision to cast a result batch does not come from that batch (it is captured from outside the per-batch closure, e.g. computed from the first batch): a later batch that is dictionary-encoded while the first is not is returned uncast under a schema that says Utf8", g.loc(), dict(guards=detail))
+    R.floor("C30.R4", "per-batch cast closures in sql()", n4, 1)
+    # ---- R5: typed NULL columns
+    R.rule("C30.R5", "K2 presence + provenance", "project_batch retypes NullArray columns with new_null_array(declared type)")
+    pb = F.one("project_batch", file="src/physical/operators/project.rs")
+    nn = [c for c in F.fam_calls(pb.path) if c.name.rsplit("::", 1)[-1] == "new_null_array"]
+    typed = any(derives_from(c.fn, [c.args[0]], lambda k, x: (k == "call" and x.name.rsplit("::", 1)[-1] == "data_type" and "Field" in (x.self_ty or "") + x.name and x) or None) for c in nn)
+    R.check(bool(nn) and typed, "C30.R5", "project_batch:null-columns-retyped", "an expression whose value is NULL (literal NULL, a scalar subquery that found nothing) leaves an untyped NullArray in the batch: the batch says DataType::Null where the reported schema promises the declared type", pb.loc(), dict(new_null_array_calls=len(nn), typed_from_declared_field=typed))
